@@ -78,6 +78,10 @@ class Record(Stub):
     def _abs_len(self):
         return len(self._cls.fields)
 
+    @property
+    def _fields(self):
+        return tuple(self._cls.fields)
+
     def _replace(self, **kw):
         d = {f: getattr(self, f) for f in self._cls.fields}
         d.update(kw)
@@ -104,6 +108,13 @@ class RecordClass(Stub):
     def __init__(self, name: str, fields: List[str], defaults: Dict[str, Any], is_tuple: bool):
         self.name, self.fields, self.defaults, self.is_tuple = name, fields, defaults, is_tuple
         self.__name__ = name
+
+    @property
+    def _fields(self):
+        return tuple(self.fields)
+
+    def _make(self, it):
+        return self._abs_call(*list(it))
 
     def _abs_call(self, *args, **kwargs):
         if len(args) > len(self.fields):
@@ -158,7 +169,15 @@ class ModuleTable(dict):
     """Stand-in for an imported standard-library module: the names of it the interpreter knows."""
 
 
-MODULES = {"itertools": ModuleTable({"product": itertools.product, "combinations": itertools.combinations, "chain": itertools.chain, "permutations": itertools.permutations})}
+def _namedtuple(name, fields, defaults=None, **k):
+    if isinstance(fields, str):
+        fields = fields.replace(",", " ").split()
+    fields = list(fields)
+    dv = list(defaults or [])
+    return RecordClass(name, fields, dict(zip(fields[len(fields) - len(dv):], dv)), True)
+
+
+MODULES = {"collections": ModuleTable({"namedtuple": StubCall(_namedtuple)}), "itertools": ModuleTable({"product": itertools.product, "combinations": itertools.combinations, "chain": itertools.chain, "permutations": itertools.permutations})}
 _BIN = {ast.Add: operator.add, ast.Sub: operator.sub, ast.Mult: operator.mul, ast.Div: operator.truediv, ast.FloorDiv: operator.floordiv,
         ast.Mod: operator.mod, ast.Pow: operator.pow, ast.BitAnd: operator.and_, ast.BitOr: operator.or_, ast.BitXor: operator.xor}
 _CMP = {ast.Eq: operator.eq, ast.NotEq: operator.ne, ast.Lt: operator.lt, ast.LtE: operator.le, ast.Gt: operator.gt, ast.GtE: operator.ge,
